@@ -5,7 +5,7 @@ import ast
 import math
 from fractions import Fraction as Fr
 
-from .absval import (Undecided, Term, OrderVal, Opaque, Vec, NRows, FVal, FStr, DF, GA, Row, Raised, Closure, Module,
+from .absval import (NAN, Undecided, Term, OrderVal, Opaque, Vec, NRows, FVal, FStr, DF, GA, Row, Raised, Closure, Module,
                      ClassRef, BoundMethod, T, num, t_add, t_sub, t_mul, t_div, t_neg, fatom, f_exp2, f_log2, f_ceil,
                      f_floor, f_round, f_trunc, f_abs, f_sqrt, f_max, f_min, same, INF)
 
@@ -574,6 +574,24 @@ class GroupedCol:
     def __init__(self, groups, col):
         self.groups, self.col = groups, col
 
+    def _reduce(self, pick):
+        """one value per group, in group order, labelled by the group keys"""
+        keys, vals = [], []
+        for key, sub in self.groups:
+            keys.append(key)
+            vals.append(pick(list(sub.cols[self.col].v)))
+        r = Vec(vals, aligned="any")
+        r.exact = True
+        if all(isinstance(k, (str, int)) for k in keys):
+            r.labels = keys
+        return r
+
+    def last(self, *a, **k):
+        return self._reduce(lambda v: v[-1])
+
+    def first(self, *a, **k):
+        return self._reduce(lambda v: v[0])
+
     def _per_group(self, it, name, args, kw):
         df = self.groups.df
         keys = df.cols[self.groups.by].v
@@ -705,6 +723,15 @@ def load_subscript(it, obj, k):
         if isinstance(k, (list, tuple)) and all(isinstance(c, str) for c in k):
             return DF({c: obj.data.cols[c] for c in k}, obj.data.n, obj.data.index)
         raise Undecided(f"GA getitem {k!r}")
+    if isinstance(obj, BoundMethod) and obj.name in ("iat", "iloc") and isinstance(obj.obj, DF) and isinstance(k, tuple) and len(k) == 2 \
+            and all(isinstance(x, int) and not isinstance(x, bool) for x in k):
+        d = obj.obj
+        names = [c for c in d.cols if not c.startswith("__")]
+        if not d.exact:
+            raise Undecided(f".{obj.name}[{k[0]}, {k[1]}] on a table that does not stand for literal rows")
+        if not (-d.n <= k[0] < d.n and -len(names) <= k[1] < len(names)):
+            raise Raised("IndexError", "index out of bounds")
+        return d.cols[names[k[1]]].v[k[0]]                  # one cell by (row position, column position)
     if isinstance(obj, BoundMethod) and obj.name in ("loc", "iloc") and isinstance(obj.obj, DF):
         d = obj.obj
         if isinstance(k, tuple) and len(k) == 2 and isinstance(k[1], slice) and k[1] == slice(None, None, None) and not (isinstance(k[0], slice) and k[0] == slice(None, None, None)):
@@ -1021,6 +1048,13 @@ def store_subscript(it, obj, k, v, aug=False):
         if isinstance(k, Vec) and isinstance(v, Vec) and len(k.v) == len(obj.v) and all(isinstance(m, bool) for m in k.v) and len(v.v) == sum(k.v) != len(obj.v):
             vals = iter(v.v)                               # arr[mask] = <one value per selected slot>
             obj.v = [next(vals) if m else ov for m, ov in zip(k.v, obj.v)]
+        elif isinstance(k, Vec) and isinstance(v, Vec) and obj.exact and v.exact and len(k.v) == len(obj.v) and all(isinstance(m, bool) for m in k.v) and len(v.v) != len(obj.v):
+            # a boolean-mask store of an array of another length than the number of selected slots
+            if obj.labels is not None and (obj.aligned or obj.fresh) and v.labels is not None and (v.aligned or v.fresh):
+                # Series[mask] = Series: the value is aligned by label onto the selected rows; a selected row without a partner becomes NaN
+                obj.v = [(v.v[v.labels.index(l)] if l in v.labels else None) if m else ov for m, ov, l in zip(k.v, obj.v, obj.labels)]
+            else:
+                raise Raised("ValueError", f"NumPy boolean array indexing assignment cannot assign {len(v.v)} input values to the {sum(k.v)} output values where the mask is true")
         elif isinstance(k, Vec):
             newv = bcast(v, len(obj.v))
             obj.v = [nv if m is True else ov for m, ov, nv in zip(k.v, obj.v, newv)]
@@ -1747,8 +1781,8 @@ def df_method(it, obj, name, args, kw):
 # ---------------------------------------------------------------------- external modules
 def ext_attr(it, modname, attr):
     full = f"{modname}.{attr}"
-    consts = {"np.nan": None, "np.inf": INF, "math.inf": INF, "np.newaxis": None, "math.pi": Fr(355, 113), "np.pi": Fr(355, 113), "np.float64": _TypeProxy(float, lambda x=0.0: x),
-              "np.NaN": None, "sys.float_info.epsilon": Fr(1, 2 ** 52), "os.curdir": ".", "os.pardir": "..", "os.sep": "/", "os.path.sep": "/", "os.extsep": ".", "os.linesep": "\n"}
+    consts = {"np.nan": NAN, "np.inf": INF, "math.inf": INF, "np.newaxis": None, "math.pi": Fr(355, 113), "np.pi": Fr(355, 113), "np.float64": _TypeProxy(float, lambda x=0.0: x),
+              "np.NaN": NAN, "math.nan": NAN, "sys.float_info.epsilon": Fr(1, 2 ** 52), "os.curdir": ".", "os.pardir": "..", "os.sep": "/", "os.path.sep": "/", "os.extsep": ".", "os.linesep": "\n"}
     if full in consts:
         return consts[full]
     return Module(full)
@@ -1805,6 +1839,39 @@ def ext_call(it, dotted, args, kw):
         return r
     if name in ("np.isnan", "pd.isnull", "pd.isna", "math.isnan"):
         return lift1(is_nan, args[0])
+    if name == "np.add.reduceat" and len(args) == 2 and not kw and isinstance(args[0], Vec):
+        idx = [int(T(i).cval()) for i in (args[1].v if isinstance(args[1], Vec) else list(it.iterate(args[1])))]
+        vals, n = args[0].v, len(args[0].v)
+        if any(not 0 <= i < n for i in idx):
+            raise Raised("IndexError", "index out of bounds in reduceat")
+        out = []
+        for j, i in enumerate(idx):
+            stop = idx[j + 1] if j + 1 < len(idx) else n
+            seg = vals[i:stop] if stop > i else [vals[i]]                      # numpy: a non-increasing pair yields the single element
+            out.append(_vec_reduce_sum(Vec(seg)))
+        return Vec(out)
+    if name == "np.divide" and len(args) == 2 and set(kw) <= {"out", "where"}:
+        q = lift2(lambda x, y: ai.binop(ast.Div(), x, y), args[0], args[1]) if "where" not in kw else None
+        if "where" in kw:
+            a_, b_, wh, dst = args[0], args[1], kw["where"], kw.get("out")
+            n = len(a_.v) if isinstance(a_, Vec) else len(b_.v)
+            av, bv = bcast(a_, n), bcast(b_, n)
+            keep = list(dst.v) if isinstance(dst, Vec) else [None] * n
+            res = [ai.binop(ast.Div(), x, y) if m is True else k_ for x, y, m, k_ in zip(av, bv, bcast(wh, n), keep)]
+            if isinstance(dst, Vec):
+                dst.v = res
+                return dst
+            return Vec(res)
+        if isinstance(kw.get("out"), Vec):
+            kw["out"].v = list(q.v)
+            return kw["out"]
+        return q
+    if name in ("scipy.stats.norm.ppf", "stats.norm.ppf") and len(args) == 1 and not kw:
+        q = T(args[0])
+        if not q.is_const() or not 0 < q.cval() < 1:
+            raise Undecided("norm.ppf of a non-literal probability")
+        import statistics
+        return Fr(repr(round(statistics.NormalDist().inv_cdf(float(q.cval())), 9)))          # the standard normal quantile, to 9 decimals (a library constant, not repository code)
     if name == "np.flatnonzero" and args and isinstance(args[0], Vec) and all(isinstance(x, bool) for x in args[0].v):
         if not args[0].exact:
             return MaskIdx(args[0])                  # one slot per row class: the positions where the mask holds, kept as the mask (like np.nonzero(mask)[0])
@@ -2032,6 +2099,15 @@ def ext_call(it, dotted, args, kw):
         return fatom("exp", [T(args[0])], 0.0, INF)
     if name == "pd.DataFrame":
         a0 = args[0] if args else kw.get("data")
+        if isinstance(a0, dict) and any(isinstance(v, (list, tuple)) for v in a0.values()):
+            # plain lists among the columns: literal arrays of that length
+            def as_vec(v):
+                if isinstance(v, (list, tuple)):
+                    r = Vec(list(v))
+                    r.exact = True
+                    return r
+                return v
+            a0 = {k: as_vec(v) for k, v in a0.items()}
         if isinstance(a0, dict) and all(isinstance(v, Vec) for v in a0.values()):
             n = len(next(iter(a0.values())).v) if a0 else 0
             return DF(a0, n)
